@@ -1,6 +1,7 @@
 import ParsecVerif.Proofs.DistRtLive
 import ParsecVerif.Proofs.DistRtTerm
 import ParsecVerif.Props.Runtime
+import ParsecVerif.Model.PtgDist
 /-!
 # C05 — distributed PTG results do not depend on process count or message path
 
@@ -143,6 +144,35 @@ theorem C05_configurations_agree (hwf : g.WF) {cf1 cf2 : Conf} (h1 : cf1.WF g) (
   rw [e1, e2]
   exact Runtime.values_schedule_independent (graph_WF g hwf) ag1 ag2 t1 t2 (e1 ▸ hq1.1) (e2 ▸ hq2.1)
 
+/-! ## PTG programs -/
+
+theorem placeOfProg_lt (p : Ptg.Program) (nt : Nat) (table : List Nat) (nranks : Nat) (hn : 0 < nranks) (i : Nat) :
+    PtgDist.placeOfProg p nt table nranks i < nranks := by
+  unfold PtgDist.placeOfProg
+  split
+  · unfold PtgDist.ownerOf; split <;> exact Nat.mod_lt _ hn
+  · exact hn
+
+/-- **C05 for PTG programs (partial form).**  For a program of the JDF subset whose task graph (`graphOfProg`: the
+    instances in enumeration order, one labelled edge per edge of the successor iterators) is numbered topologically
+    — `Ptg.WellFormed` certifies it, the driver evaluates both on every case — placed by ANY distribution table over
+    the tiles, on any number of processes: if `dataOK` holds for every collective activation under the configured
+    topology, every maximal run of the distributed runtime terminates everywhere with the values of the sequential
+    execution in enumeration order, whatever the bodies compute. -/
+theorem C05_program_partial (p : Ptg.Program) (nt : Nat) (table : List Nat) (topo : Topo) (nranks short : Nat)
+    (hn : 0 < nranks) (hn2 : nranks ≤ 2 ^ 31) (hwf : (PtgDist.graphOfProg p).WF)
+    (hok : dataOKAll (PtgDist.graphOfProg p) (PtgDist.confOf p nt table topo nranks short) = true)
+    (F : Nat → List (Option Nat) → Nat) (again : List Nat) (ts : List DTr)
+    (hmax : ∀ t, denabled (PtgDist.confOf p nt table topo nranks short)
+      (drun (PtgDist.graphOfProg p) (PtgDist.confOf p nt table topo nranks short) F again ts) t = false) :
+    (∀ i, i < (PtgDist.graphOfProg p).n →
+      (drun (PtgDist.graphOfProg p) (PtgDist.confOf p nt table topo nranks short) F again ts).core.val[i]? =
+        (seqRun (PtgDist.graphOfProg p).graph F)[i]?) ∧
+    allTerminate (PtgDist.graphOfProg p) (drun (PtgDist.graphOfProg p) (PtgDist.confOf p nt table topo nranks short) F again ts) :=
+  let h := C05_rank_invariance_partial (F := F) hwf
+    (⟨hn, hn2, fun i _ => placeOfProg_lt p nt table nranks hn i⟩ : (PtgDist.confOf p nt table topo nranks short).WF _) hok again ts hmax
+  ⟨h.1, h.2.1⟩
+
 /-! ## The property as stated is false of the code -/
 
 /-- The statement of C05 without side condition: every maximal run of every configuration terminates everywhere
@@ -251,6 +281,33 @@ example : g52.WF ∧ deliveryOKAll g52 cf52star = true ∧
     (drun g52 cf52star F52 [] run52star).core.pending = [] ∧
     (drun g52 cf52star F52 [] run52star).core.val = seqRun g52.graph F52 ∧
     seqRun g52.graph F52 = [some 1, some 3, some 5] := by decide
+
+/-- the hypotheses of `C05_rank_invariance_partial` are satisfiable together: the star run above is maximal -/
+theorem state52star :
+    (drun g52 cf52star F52 [] run52star).core.status = [.ended, .ended, .ended] ∧
+    (drun g52 cf52star F52 [] run52star).core.pending = [] ∧
+    (drun g52 cf52star F52 [] run52star).xfer = [] ∧
+    ((drun g52 cf52star F52 [] run52star).coll.all fun e => (inflightOf (drun g52 cf52star F52 [] run52star) e.1).isEmpty) = true ∧
+    dataOKAll g52 cf52star = true := by decide
+
+theorem maximal52star : ∀ t, denabled cf52star (drun g52 cf52star F52 [] run52star) t = false := by
+  obtain ⟨hs, hp, hx, hc, _⟩ := state52star
+  intro t
+  cases t with
+  | start i => simp only [denabled, enabled, hs]; exact status3 _ _ _ _ (by decide) (by decide) (by decide) i
+  | again i =>
+    simp only [denabled, enabled, hs]
+    rw [status3 _ _ _ _ (by decide) (by decide) (by decide) i]; rfl
+  | finish i =>
+    simp only [denabled, enabled, hs]
+    rw [status3 _ _ _ _ (by decide) (by decide) (by decide) i]; rfl
+  | releaseLocal a b => simp [denabled, enabled, hp]
+  | recvAct a m e => simp [denabled, inflight_nil_of_all _ hc a]
+  | recvData a m => simp [denabled, hx]
+
+example : allTerminate g52 (drun g52 cf52star F52 [] run52star) :=
+  (C05_rank_invariance_partial (F := F52) wf52.1 (by exact ⟨by decide, by decide, fun i hi => hi⟩) state52star.2.2.2.2 []
+    run52star maximal52star).2.1
 
 /-- differing destination sets that chain delivers (nested sets: the relay consumes both outputs): 4 ranks,
     output 0 → ranks {1, 2}, output 1 → ranks {1, 2, 3}; eager transport allowed (short limit 8 ≥ size 1) -/
